@@ -85,6 +85,37 @@ fn seq_spec(ctx: &Ctx, shards: usize) -> SeqSpec {
     }
 }
 
+/// Histories that start with a key whose TTL has elapsed but which has not been swept (its expiry shard is not the one
+/// the clock is on): whatever is put, upserted or read next, an accepted, undeleted key is not lost later - in
+/// particular not when the sweeper finally reaches the old expiry.
+fn unswept_spec(ctx: &Ctx, shards: usize) -> SeqSpec {
+    let quick = ctx.quick();
+    SeqSpec {
+        name: format!("seq/no-spurious-loss/after-an-unswept-expiry/shards{}", shards),
+        setup: Setup { weight: 10_000, shards, counters: 2, buffer: 1, weight_fn: WeightFn::Const { c: 30, ttl_extra: 24 }, ..Setup::default() },
+        world: Default::default(),
+        prefix: vec![Op::Put { k: 1, w: Some(30), ttl_ms: Some(1000) }, Op::Advance { ms: 2000 }],
+        alphabet: vec![
+            Op::Put { k: 1, w: Some(30), ttl_ms: None },
+            Op::Put { k: 1, w: Some(30), ttl_ms: Some(9000) },
+            Op::Upsert { k: 1, value: true, w: None, ttl_ms: None, remove_ttl: true },
+            Op::Upsert { k: 1, value: true, w: Some(40), ttl_ms: Some(9000), remove_ttl: false },
+            Op::Delete { k: 1 },
+            Op::Advance { ms: 1000 },
+            Op::TickWait,
+            Op::ReadAll { keys: vec![1] },
+        ],
+        depth: if quick { 6 } else { 8 },
+        allow: None,
+        oracle: seq_oracle(),
+        keys: vec![1],
+        canon_sketch: true,
+        ghost_key: Some(ghost_key(false)),
+        max_states: if quick { 80_000 } else { 3_000_000 },
+        time_cap_s: if quick { 10.0 } else { 600.0 },
+    }
+}
+
 // ---------------------------------------------------------------------------------------------- ilv
 /// Thread 0 works on key 1 sequentially (every write awaited); its reads of key 1 must see the latest
 /// accepted value unless the clock may have passed the deadline.
@@ -232,6 +263,10 @@ pub fn def(ctx: &Ctx) -> PropertyDef {
         }
         let name = seq_spec(ctx, shards).name;
         scenarios.push(seq_scenario(move |c| seq_spec(c, shards), &name));
+    }
+    for shards in [2usize, 4] {
+        let name = unswept_spec(ctx, shards).name;
+        scenarios.push(seq_scenario(move |c| unswept_spec(c, shards), &name));
     }
     for p in crate::harness::ilv::for_tier(ilv_programs(), quick) {
         let three = p.threads.len() >= 3;
